@@ -137,7 +137,8 @@ def run_impl(ops, eol, tmpdir):
             g.add_writer(probe)
         emitted.append(probe.lines[n0:])
         if op[0] in ("flush", "teardown"):
-            snapshots.append((len(emitted) - 1, observe(objs)))
+            # after flush() the files are read as they are on disk: the caller does not flush its own file objects first
+            snapshots.append((len(emitted) - 1, observe(objs, caller_flushes=(op[0] != "flush"))))
     final = observe(objs)
     for k, (kind, w, h) in objs.items():
         if kind in ("textfile", "latin1file"):
@@ -145,7 +146,7 @@ def run_impl(ops, eol, tmpdir):
     return emitted, snapshots, final
 
 
-def observe(objs):
+def observe(objs, caller_flushes=True):
     out = {}
     for i, (kind, w, h) in objs.items():
         if kind == "path":
@@ -159,11 +160,13 @@ def observe(objs):
         elif kind == "text":
             out[i] = dict(content=h.getvalue().encode("utf-8"))
         elif kind == "textfile":
-            h[0].flush()
+            if caller_flushes:
+                h[0].flush()
             out[i] = dict(content=open(h[1], "rb").read())
         elif kind == "latin1file":
             # a text stream in another encoding: the same TEXT must arrive; normalise to its UTF-8 bytes
-            h[0].flush()
+            if caller_flushes:
+                h[0].flush()
             out[i] = dict(content=open(h[1], "rb").read().decode("latin-1").encode("utf-8"))
         else:
             out[i] = dict(content=b"".join(h.lines), log=list(h.lines), disconnects=h.disconnects)
@@ -323,6 +326,30 @@ def main():
                 if prob:
                     found = True
                     run.violation(prob, dict(ops=ops, line_endings=eol))
+            # after flush(): every caller-owned file object that is registered and has been written to since it was registered
+            # shows, on disk, everything it has received (FileWriter.flush flushes the file it writes to, whoever opened it)
+            for upto, snap in snaps:
+                if ops[upto][0] != "flush":
+                    continue
+                for wid, obs in snap.items():
+                    if kind_of.get(wid) not in ("textfile", "latin1file"):
+                        continue
+                    reg, fresh = False, False
+                    for op, lines in zip(ops[:upto + 1], emitted[:upto + 1]):
+                        if op[0] == "add" and op[1] == wid:
+                            reg, fresh = True, fresh if reg else False
+                        elif op[0] == "remove" and op[1] == wid:
+                            reg = False
+                        elif op[0] == "teardown":
+                            reg = False
+                        elif op[0] == "emit" and reg and lines:
+                            fresh = True
+                    if reg and fresh:
+                        exp = b"".join(spec_expected(ops[:upto + 1], emitted[:upto + 1], wid))
+                        if obs["content"] != exp:
+                            found = True
+                            run.violation("after flush() the caller-opened text file %d holds %d bytes on disk, %d bytes have been written to it: %r"
+                                          % (wid, len(obs["content"]), len(exp), obs["content"][-60:]), dict(ops=ops[:upto + 1], line_endings=eol))
             # teardown disconnects every registered custom writer exactly once
             if ci < 4:
                 run.sample(dict(ops=[list(map(str, o)) for o in ops[:10]], emitted=[[l.decode("utf-8", "replace") for l in ls] for ls in emitted[:10]]))
